@@ -236,6 +236,23 @@ finally:
         oracle.p.wait(timeout=5)
     except Exception:
         pass
-res["hashes"] = sorted(set(res["hashes"]))
+
+
+def safe(x):
+    """make the result file strict JSON whatever the objects under test looked like"""
+    if isinstance(x, dict):
+        return {safe(k) if isinstance(k, str) else repr(k): safe(v) for k, v in x.items()}
+    if isinstance(x, (list, tuple, set)):
+        return [safe(v) for v in x]
+    if isinstance(x, float) and not math.isfinite(x):
+        return repr(x)
+    if isinstance(x, str):
+        return x.encode("utf-8", "backslashreplace").decode("utf-8")
+    if x is None or isinstance(x, (bool, int, float)):
+        return x
+    return repr(x)
+
+
+res["hashes"] = sorted(set(safe(res["hashes"])))
 with open(outfile, "w") as f:
-    json.dump(res, f)
+    json.dump(safe(res), f, allow_nan=False)
